@@ -192,6 +192,12 @@ def make_handler(framing, kind, G):
             for i in range(G):
                 assume((g[i] == 0x3A) | (g[i] == 0x0D) | (g[i] == 0x0A) | (g[i] == 0x7B) | (g[i] == 0x7D))
             garbage = g
+        elif kind == "fragment":
+            # the head of a request whose size comes from a byte-count field that never arrives (an abandoned
+            # partial frame), sent AFTER a first request has been served (the receiver is past its initial state)
+            assume(g[0] == u)
+            assume((g[1] == 15) | (g[1] == 16) | (g[1] == 23))
+            garbage = g
         elif kind == "nopdu":
             # a frame whose integrity check holds but which carries no PDU at all (address only)
             garbage = adu.ref_adu(framing, b"", u)
@@ -208,7 +214,8 @@ def make_handler(framing, kind, G):
             no_straddle(framing, stream, len(garbage), FL)
         slave = SL.small_context()
         ctx = SL.server_context(slave, single=True)
-        r = SL.drive("sync-serial", framing, ctx, [garbage] + [frame for _ in range(K)])
+        lead = [frame] if kind == "fragment" else []
+        r = SL.drive("sync-serial", framing, ctx, lead + [garbage] + [frame for _ in range(K)])
         if r.escaped is not None:
             explain("%s escaped the handler", type(r.escaped).__name__)
             return False
@@ -252,7 +259,15 @@ def fifo_size_formula(g: bytes) -> bool:
     from pymodbus.file_message import ReadFifoQueueResponse
     assume(len(g) == 6)
     n = ReadFifoQueueResponse.calculateRtuFrameSize(g)
-    return same(n, g[2] * 256 + g[3] + 6, "announced size")
+    if not same(n, g[2] * 256 + g[3] + 6, "announced size"):
+        return False
+    # ... and it is known as soon as the count field is there (4 bytes), not later: a read may end right behind it
+    try:
+        n4 = ReadFifoQueueResponse.calculateRtuFrameSize(g[0:4])
+    except Exception as e:
+        explain("size not computable from the first 4 header bytes: %s", type(e).__name__)
+        return False
+    return same(n4, n, "announced size from 4 bytes")
 
 
 def _ascii_stuck(garbage):
@@ -309,7 +324,7 @@ def obligations(tier):
                            bounds="RTU frame-size oracle of the %s class for function code %d on ANY 13 header bytes: announced size within 0..268" % (direction, fc)))
     out.append(Obl("sizeformula.rtu.rsp.fc24", fifo_size_formula, timeout=T,
                    bounds="ReadFifoQueueResponse.calculateRtuFrameSize on any 6 header bytes == 256*hi + lo + 6"))
-    for framing, kind, G in (("binary", "delims", 2), ("binary", "nopdu", 0), ("ascii", "nopdu", 0), ("ascii", "fconly", 1), ("binary", "fconly", 1),
+    for framing, kind, G in (("rtu", "fragment", 4), ("rtu", "fragment", 2), ("binary", "delims", 2), ("binary", "nopdu", 0), ("ascii", "nopdu", 0), ("ascii", "fconly", 1), ("binary", "fconly", 1),
                              ("ascii", "delims", 3), ("rtu", "raw", 3), ("ascii", "raw", 5)):
         if tier == "quick" and (framing, kind) in (("ascii", "delims"), ("ascii", "raw"), ("rtu", "raw")):
             continue
